@@ -168,3 +168,60 @@ Lemma noreset_refuted_proof :
                       ((fun _ => None), (fun _ => None)) in
   option_map t_vals (fst cd 0%nat) = Some [99] /\ snd cd 0%nat = Some [16].
 Proof. split; reflexivity. Qed.
+
+(* ---------------------------------------------------------------- (3) *)
+(* whenever the wait loop of decompress_data has been left (its condition is false), the row about to
+   be output holds the data of the scan being output -- for the look-ahead generated from the source *)
+Theorem output_row_has_scan_data_proof : forall fuel nrows so ro p,
+  let p' := force_input fuel decompress_data_rows_ahead nrows so ro p in
+  must_read decompress_data_rows_ahead so ro p' = false -> row_has_scan_data so ro p'.
+Proof.
+  intros fuel nrows so ro p p' H. change decompress_data_rows_ahead with 1%nat in *.
+  destruct p' as [si ri]. unfold must_read in H. unfold row_has_scan_data.
+  apply Bool.orb_false_iff in H. destruct H as [H1 H2].
+  apply Nat.ltb_ge in H1. apply Bool.andb_false_iff in H2.
+  destruct H2 as [H2|H2]; [apply Nat.eqb_neq in H2; left; lia|apply Nat.ltb_ge in H2].
+  destruct (Nat.eq_dec si so); [right; lia|left; lia].
+Qed.
+
+(* with no look-ahead the loop is left one row too early *)
+Lemma no_lookahead_refuted_proof :
+  force_input 100 0 6 3 0 (3%nat, 0%nat) = (3%nat, 0%nat) /\ must_read 0 3 0 (3%nat, 0%nat) = false /\
+  ~ row_has_scan_data 3 0 (3%nat, 0%nat).
+Proof. split; [reflexivity|]. split; [reflexivity|]. unfold row_has_scan_data. lia. Qed.
+
+(* ---------------------------------------------------------------- (4) *)
+Lemma idct_pass_inv q lats : latch_monotone q lats ->
+  forall st, (fst st = true -> snd st = Some q) ->
+  let st' := fold_left (idct_start_pass true) lats st in
+  (fst st' = true -> snd st' = Some q).
+Proof.
+  induction lats as [|l lats IH]; intros Hm st Hst; [exact Hst|].
+  cbn [fold_left]. destruct l as [q'|].
+  - cbn [latch_monotone] in Hm. destruct Hm as [-> HF].
+    apply IH.
+    + clear IH Hst. induction HF as [|x r Hx HF IH2]; [exact I|]. subst x. cbn [latch_monotone]. split; [reflexivity|exact HF].
+    + destruct st as [b t]. unfold idct_start_pass. destruct b; cbn [fst snd]; auto.
+  - cbn [latch_monotone] in Hm. apply IH; [exact Hm|].
+    destruct st as [b t]. unfold idct_start_pass. destruct b; cbn [fst snd]; auto.
+Qed.
+
+(* a multiplier table is built only from a latched table, and a pass whose component has a latched
+   table q always runs with the multipliers of q, whatever passes came before *)
+Theorem idct_table_from_latched_proof : forall q lats,
+  latch_monotone q (lats ++ [Some q]) -> idct_passes (lats ++ [Some q]) = (true, Some q).
+Proof.
+  intros q lats Hm. unfold idct_passes. change idct_marks_table_built_after_quant_table_check with true.
+  rewrite fold_left_app. cbn [fold_left].
+  assert (Hpre : latch_monotone q lats).
+  { clear - Hm. induction lats as [|l r IH]; [exact I|]. destruct l as [q'|]; cbn [app latch_monotone] in *.
+    - destruct Hm as [-> HF]. split; [reflexivity|]. apply Forall_app in HF. exact (proj1 HF).
+    - apply IH, Hm. }
+  pose proof (idct_pass_inv q lats Hpre (false, None) ltac:(discriminate)) as Hinv. cbv zeta in Hinv.
+  destruct (fold_left (idct_start_pass true) lats (false, None)) as [b t]. cbn [fst snd] in Hinv.
+  unfold idct_start_pass. destruct b; [rewrite Hinv by reflexivity|]; reflexivity.
+Qed.
+
+Lemma idct_mark_first_refuted_proof :
+  fold_left (idct_start_pass false) [None; Some [16]] (false, None) = (true, None).
+Proof. reflexivity. Qed.
